@@ -9,6 +9,7 @@ import (
 	"encoding/json"
 	"flag"
 	"fmt"
+	"math"
 	"os"
 	"os/exec"
 	"path/filepath"
@@ -268,6 +269,7 @@ func doParent(ck *Check, tier string, seed uint64, only string) int {
 		i    int
 		err  error
 		tail string
+		cpu  float64 // user+system seconds of the worker process
 	}
 	ch := make(chan wres, nw)
 	for i := 0; i < nw; i++ {
@@ -297,7 +299,11 @@ func doParent(ck *Check, tier string, seed uint64, only string) int {
 					tail += "\n@hang: worker exceeded budget+grace and was killed\n"
 				}
 			}
-			ch <- wres{i, err, tail}
+			cpu := 0.0
+			if ps := cmd.ProcessState; ps != nil {
+				cpu = (ps.UserTime() + ps.SystemTime()).Seconds()
+			}
+			ch <- wres{i, err, tail, cpu}
 		}(i)
 	}
 	total := newStats()
@@ -305,6 +311,10 @@ func doParent(ck *Check, tier string, seed uint64, only string) int {
 	scenariosRun := 0
 	for k := 0; k < nw; k++ {
 		r := <-ch
+		total.CPU += r.cpu
+		if r.cpu > total.MaxWorkerCPU {
+			total.MaxWorkerCPU = r.cpu
+		}
 		if r.err != nil {
 			// find the last breadcrumb
 			last := ""
@@ -461,9 +471,9 @@ func doParent(ck *Check, tier string, seed uint64, only string) int {
 		}
 	}
 	exhaustive := !total.Capped && len(crashes) == 0
-	fmt.Printf("%s %s: scenarios=%d leaves=%d evaluations=%d out_of_scope=%d distinct_outcomes=%d states=%d transitions=%d violations=%d(unlisted %d) exhaustive=%v wall=%.1fs\n",
+	fmt.Printf("%s %s: scenarios=%d leaves=%d evaluations=%d out_of_scope=%d distinct_outcomes=%d states=%d transitions=%d violations=%d(unlisted %d) exhaustive=%v wall=%.1fs cpu=%.0fs max_worker_cpu=%.1fs\n",
 		ck.ID, tier, scenariosRun, total.Leaves, total.Evals, total.Skipped, len(total.Outcomes), len(total.States),
-		total.Transitions, len(total.Violations), unlisted, exhaustive, wall)
+		total.Transitions, len(total.Violations), unlisted, exhaustive, wall, total.CPU, total.MaxWorkerCPU)
 	if only == "" {
 		writeEvidence(ck, tier, seed, total, scenariosRun, exhaustive, wall, unlisted, known)
 	}
@@ -566,7 +576,10 @@ func writeEvidence(ck *Check, tier string, seed uint64, st *workerStats, scenari
 		"max_choice_depth":    st.MaxDepth,
 		"axis_coverage":       cover,
 		"time_cap_hit":        st.Capped,
-		"known_findings_hit":  kf,
+		// load-independent cost: total CPU of the worker processes and the heaviest worker (≈ wall time alone on 16 idle cores)
+		"cpu_s":              math.Round(st.CPU*10) / 10,
+		"max_worker_cpu_s":   math.Round(st.MaxWorkerCPU*10) / 10,
+		"known_findings_hit": kf,
 	}
 	if states > 0 {
 		cov["states"] = states
